@@ -12,7 +12,7 @@ def float_lists(ctx):
     th = ctx.tier == "thorough"
     cases, weights = [], []
     for n in range(2, 41):
-        for rep in range(12 if th else 1):
+        for rep in range(30 if th else 1):
             kind = rng.random()
             if kind < 0.5:
                 xs = sorted(set(rng.uniform(-1e3, 1e3) for _ in range(n)))
@@ -65,7 +65,7 @@ def gen_curves(ctx):
     rng = ctx.rng
     th = ctx.tier == "thorough"
     cases, weights, keysets = [], [], []
-    ncurves = 1500 if th else 48
+    ncurves = 4000 if th else 48
     for ci in range(ncurves):
         n = rng.choice([2, 2, 3, 3, 4, 5, 6, 7, 8, 9, 10, 11, 12])
         spacing, ks = cr.gen_keys(rng, n)
